@@ -285,6 +285,8 @@ _op('shape_slice', [IX + 'slice.hpp'], [('shape', 'L'), ('s0', 'S'), ('s1', 'S')
 
 VW = 'nmtools/array/view/'
 AR = 'nmtools/array/array/'
+_op('shape_matmul', [VW + 'matmul.hpp'], [('ashape', 'L'), ('bshape', 'L')], 'ix::shape_matmul(ashape,bshape)',
+    [[[2, 3], [3, 4]], [[2, 1, 3, 4], [5, 4, 2]]], rep_bad=[[[2, 3], [2, 2]]])
 _op('v_transpose', [VW + 'transpose.hpp'], [('x', 'A'), ('axes', 'I')], 'view::transpose(x,axes)',
     [[[2, 3], [1, 0]], [[2, 3], None]], post='k9::norm_arr(r)', level='view')
 _op('v_reshape', [VW + 'reshape.hpp'], [('x', 'A'), ('newshape', 'I')], 'view::reshape(x,newshape)',
